@@ -39,7 +39,7 @@ CLAIMS = {
  "C06": ("Coq theorem over all blocks: relation rows are never deleted, so an entry hash that counts as executed does so in every later state; both the arrival path and the "
          "holding path consult them (an executed, pending or rejected entry written again has no effect: C08/C17 lemmas). Tie: chains repeating entries in the same block, "
          "later blocks, across blocks without rates, after execution and after each reject code, compared with the node on balances, status, holding and relation rows.",
-         "section 6 C06", "'considered exactly once' for held batches (the window partition argument) rests on the correspondence, not on a theorem. "),
+         "section 6 C06", "'considered exactly once' for held batches is proved as two window theorems (a held height is looked at by the next rated block; it is not looked at again once a rated height lies between); that a batch is in at most one window between two consecutive rated heights is their corollary, the end-to-end chain statement is by correspondence. "),
  "C07": ("Coq theorems over all int64 amounts and uint64 rates: Convert = floor(in*src/dst) with min/max against averages from PIP-10, error exactly on zero rate/average or "
          "int64 overflow, value never increases; chain level: a batch with conversions is only put into holding by its own block and executed by the next block that has "
          "rates, at that block's rates (model of SyncBlock tied to the real node on chains with graded / ungraded patterns, including unrated snapshot heights).",
